@@ -309,6 +309,39 @@ static void disk_read(dig *d, int tid)
 	d_rc(d, archive_read_free(a));
 }
 
+static void mkfile(const char *path, size_t n, int salt);
+/* a file that gets shorter between its header and its data: the disk reader leaves the data loop through its
+ * abort path with the file still open */
+static void disk_shrink(dig *d, int tid)
+{
+	char root[600], victim[700];
+	struct archive *a = archive_read_disk_new();
+	struct archive_entry *e = archive_entry_new();
+	int r, n = 0;
+	snprintf(root, sizeof(root), "%s/s%d", workdir, tid);
+	snprintf(victim, sizeof(victim), "%s/s%d/shrink.bin", workdir, tid);
+	mkfile(victim, 200000, 3);
+	d_rc(d, archive_read_disk_set_behavior(a, ARCHIVE_READDISK_NO_XATTR | ARCHIVE_READDISK_NO_ACL | ARCHIVE_READDISK_NO_FFLAGS));
+	r = archive_read_disk_open(a, root);
+	d_rc(d, r);
+	while (r == ARCHIVE_OK && (r = archive_read_next_header2(a, e)) >= ARCHIVE_WARN) {
+		const void *bp; size_t sz; la_int64_t off; int r2, blocks = 0;
+		if (archive_entry_filetype(e) == AE_IFREG) {
+			if (truncate(victim, 100) != 0) die("truncate");
+			while ((r2 = archive_read_data_block(a, &bp, &sz, &off)) == ARCHIVE_OK && ++blocks < 1000)
+				;
+			d_i64(d, r2 == ARCHIVE_OK || r2 == ARCHIVE_EOF || r2 == ARCHIVE_FAILED || r2 == ARCHIVE_FATAL || r2 == ARCHIVE_WARN);
+		}
+		if (archive_read_disk_can_descend(a)) d_rc(d, archive_read_disk_descend(a));
+		if (++n > 10) break;
+		r = ARCHIVE_OK;
+	}
+	d_i64(d, n);
+	archive_entry_free(e);
+	d_rc(d, archive_read_close(a));
+	d_rc(d, archive_read_free(a));
+}
+
 static void disk_write(dig *d, int tid, int iter)
 {
 	/* statuses and file contents only: permissions of concurrently created files are the documented
@@ -361,6 +394,7 @@ static void prepare_dirs(int k)
 		snprintf(q, sizeof(q), "%s/t%d/dirln", workdir, t);
 		if (symlink("sub", q) != 0 && errno != EEXIST) die("symlink");
 		snprintf(p, sizeof(p), "%s/w%d", workdir, t); mkdir(p, 0755);
+		snprintf(p, sizeof(p), "%s/s%d", workdir, t); mkdir(p, 0755);
 	}
 }
 
@@ -398,9 +432,9 @@ static void entry_wl(dig *d)
 
 /* ------------------------------------------------------------------ workload table */
 enum { W_USTAR, W_PAX, W_GNUTAR, W_CPIO, W_NEWC, W_ZIP, W_7ZIP, W_Z, W_TARGZ, W_LHA, W_ZFILE,
-       W_WRITE, W_WRZIP, W_WRPAX, W_DISK, W_DISKOLD, W_DISKWR, W_VERSION, W_ENTRY, W_N };
+       W_WRITE, W_WRZIP, W_WRPAX, W_DISK, W_DISKOLD, W_DISKWR, W_VERSION, W_ENTRY, W_DISKSHRINK, W_N };
 static const char *wnames[W_N] = { "ustar", "pax", "gnutar", "cpio", "newc", "zip", "7zip", "Z", "targz", "lha", "Zfile",
-       "write", "wrzip", "wrpax", "disk", "diskold", "diskwr", "version", "entry" };
+       "write", "wrzip", "wrpax", "disk", "diskold", "diskwr", "version", "entry", "diskshrink" };
 
 static void run_workload(int w, dig *d, int tid, int iter)
 {
@@ -424,6 +458,7 @@ static void run_workload(int w, dig *d, int tid, int iter)
 	case W_DISKWR: disk_write(d, tid, iter); break;
 	case W_VERSION: version_wl(d); break;
 	case W_ENTRY: entry_wl(d); break;
+	case W_DISKSHRINK: disk_shrink(d, tid); break;
 	}
 }
 
@@ -452,6 +487,16 @@ int __wrap_fcntl64(int fd, int cmd, ...)
 	va_start(ap, cmd); arg = va_arg(ap, long); va_end(ap);
 	if (old_kernel && cmd == F_DUPFD_CLOEXEC) { errno = EINVAL; return -1; }
 	return __real_fcntl64(fd, cmd, arg);
+}
+/* link with -Wl,--wrap=close: a handle that closes a descriptor twice gets EBADF when nobody reused the number -
+ * and closes another handle's file when somebody did (then THAT handle's own close gets EBADF) */
+static int bad_closes;
+int __real_close(int);
+int __wrap_close(int fd)
+{
+	int r = __real_close(fd);
+	if (r != 0 && errno == EBADF) __atomic_add_fetch(&bad_closes, 1, __ATOMIC_RELAXED);
+	return r;
 }
 int __real_fcntl(int, int, ...);
 int __wrap_fcntl(int fd, int cmd, ...)
@@ -494,7 +539,7 @@ int main(int argc, char **argv)
 	case W_LHA: if (argc < 7) die("lha file needed"); if (!in_lha.p) slurp(&in_lha, argv[6]); break;
 	case W_ZFILE: if (argc < 8) die(".Z file needed"); if (!in_Zfile.p) slurp(&in_Zfile, argv[7]); break;
 	case W_DISKOLD: old_kernel = 1; /* fallthrough */
-	case W_DISK: case W_DISKWR: prepare_dirs(conc ? k : 1); break;
+	case W_DISK: case W_DISKWR: case W_DISKSHRINK: prepare_dirs(conc ? k : 1); break;
 	}
 	nthreads = conc ? k : 1;
 	ta = calloc((size_t)nthreads, sizeof(*ta));
@@ -519,5 +564,6 @@ int main(int argc, char **argv)
 			printf("D %s %s %d %016llx %lu\n", wnames[wl[i]], conc ? "conc" : "seq", t,
 			    (unsigned long long)ta[t].d[wl[i]].h, ta[t].d[wl[i]].calls);
 		}
+	printf("X badclose %d\n", bad_closes);
 	return 0;
 }
